@@ -11,10 +11,11 @@ LEVEL = "exploration"
 RULE = ("two exhaustive families: (structure) ALL JSON values with <= N nodes over scalars {0, 's', None} and keys {'a', ''} "
         "(every nesting of dicts and lists, empty containers and empty keys); (leaves) for every shape with <= 3 nodes and "
         "every leaf position every boundary scalar (0, 1, -1, 2**63, +-2**70, 1.5, 1e308, 5e-324, -0.0, True, False, None, '', "
-        "escape/astral/NUL string, 300-char string) and every key of {'', 'a', 'a b', non-ASCII} at every key position, plus "
+        "escape/astral/NUL string, 300-char string, a string with a lone surrogate) and every key of {'', 'a', 'a b', non-ASCII} at every key position, plus "
         "depth-8 chains; each value is stored through every mutating entry point (root, nested dict, nested list, "
         "constructor) of every concrete class and read back through a FRESH object on the same resource; it must be equal "
-        "with the same JSON type at every leaf; (overwrite) for every ordered pair of values that compare == but are "
+        "with the same JSON type at every leaf - for the buffered classes the leaves family also inside obj.buffered (read back "
+        "while buffered and by a fresh object after the exit); (overwrite) for every ordered pair of values that compare == but are "
         "different JSON values (0/False/0.0/-0.0, 1/True/1.0, 2**53 int/float; bare and inside a dict, a list, a list in "
         "a dict) the first is stored and then OVERWRITTEN by the second through every entry point that replaces a "
         "position - the fresh object must read the second; non-trivial = distinct (value, entry point) pairs")
@@ -27,7 +28,7 @@ ASSUMPTIONS = ["no random tail beyond the bound (sampling is a different techniq
 STRUCT_SCALARS = (0, "s", None)
 STRUCT_KEYS = ("a", "")
 BOUNDARY = (0, 1, -1, 2 ** 63, 2 ** 70, -2 ** 70, 1.5, 1e308, 5e-324, -0.0, True, False, None, "",
-            "é\U0001F600\"\\\n\x00", "x" * 300)
+            "é\U0001F600\"\\\n\x00", "x" * 300, "x\ud800y")
 BOUNDARY_KEYS = ("", "a", "a b", "ключ")
 
 
@@ -208,8 +209,10 @@ def too_big_for_mongo(v):
     return isinstance(v, int) and not isinstance(v, bool) and not -(2 ** 63) <= v < 2 ** 63
 
 
-def run_one(c, epname, ep, v, pre=None):
-    """-> None or (kind, detail).  pre = (old,): `old` is stored through the same entry point first."""
+def run_one(c, epname, ep, v, pre=None, buffered=False):
+    """-> None or (kind, detail).  pre = (old,): `old` is stored through the same entry point first.
+    buffered=True: the value is stored inside `with obj.buffered:`, read back through the same object while still
+    buffered, and then - after the context has exited - through a fresh object."""
     kind_ = env.kind_of(c)
     if epname == "constructor":
         res = env.resource_for(c, ABSENT)
@@ -236,11 +239,18 @@ def run_one(c, epname, ep, v, pre=None):
         try:
             o = res.make(c)
             try:
-                if pre is not None:
-                    apply_(o, pre[0])
-                apply_(o, v)
+                if buffered:
+                    with o.buffered:
+                        apply_(o, v)
+                        inside = extract(model.to_plain(o()))
+                    if not model.exact_eq(inside, v):
+                        return ("altered-while-buffered", "%s stored %r inside obj.buffered, the object then reads %r" % (epname, v, inside))
+                else:
+                    if pre is not None:
+                        apply_(o, pre[0])
+                    apply_(o, v)
             except Exception as e:  # noqa: BLE001
-                return ("rejected", "%s(%r) raised %s: %s" % (epname, v, type(e).__name__, e))
+                return ("rejected", "%s(%r)%s raised %s: %s" % (epname, v, " inside obj.buffered" if buffered else "", type(e).__name__, e))
             try:
                 got = extract(model.to_plain(res.make(c)()))
             except Exception as e:  # noqa: BLE001
@@ -282,14 +292,22 @@ def run_task(task):
         for nm in names:
             pre = pres[vi] if pres is not None else None
             bad = run_one(c, nm, eps[nm], v, pre)
+            was_buffered = False
             res["evaluations"] += 1
+            if bad is None and task["family"] == "leaves" and env.is_buffered_class(c) and nm != "constructor":
+                # the buffered classes encode/decode on their own: the same value through the same entry point in
+                # buffered mode
+                bad = run_one(c, nm, eps[nm], v, None, buffered=True)
+                was_buffered = True
+                res["evaluations"] += 1
             if bad is not None:
                 if len(res["violations"]) < 30:
                     k, d = bad
                     desc = describe(v)
                     res["violations"].append({"signature": "%s|%s|%s|%s|%s" % (PROPERTY, c, nm, desc, k), "detail": d,
                                               "replay": {"engine": "c12", "module": __name__, "clsname": c, "entry": nm,
-                                                         "value": repr(v), "pre": repr(pre) if pre is not None else None}})
+                                                         "value": repr(v), "pre": repr(pre) if pre is not None else None,
+                                                         "buffered": was_buffered}})
     res["nontrivial"] = res["evaluations"]
     res["states"] = len(values)
     res["samples"] = [{"class": c, "family": task["family"], "values": len(values), "entry_points": names,
@@ -321,5 +339,5 @@ def replay(doc):
     eps = entry_points(env.kind_of(c), env.family_of(c) in env.ATTR_FAMILIES)
     eps["constructor"] = None
     pre = eval(doc["pre"], {"__builtins__": {}}) if doc.get("pre") else None
-    bad = run_one(c, doc["entry"], eps[doc["entry"]], v, pre)
+    bad = run_one(c, doc["entry"], eps[doc["entry"]], v, pre, buffered=bool(doc.get("buffered")))
     return [bad] if bad else []
